@@ -20,6 +20,10 @@ structure SettingsVal where
   headerSize : Nat := 0
   hasWindowSize : Bool := false
   hasTableSize : Bool := false
+  /-- `hasPush`, `hasMaxStreams`: like the two above for ENABLE_PUSH and MAX_CONCURRENT_STREAMS. The four marks say
+  "the frame carries this value": raised by `Read` for a frame that was decoded and by the setters for one to be sent -/
+  hasPush : Bool := false
+  hasMaxStreams : Bool := false
   /-- the (id, value) pairs as they came off the wire, in order -/
   pairs : List (Nat × Nat) := []
 deriving Repr, DecidableEq
@@ -76,8 +80,8 @@ def settingsRead : Bytes → SettingsVal → Option SettingsVal ⊕ Nat
     let s := { s with pairs := s.pairs ++ [(key, v)] }
     if key = Gen.c_HeaderTableSize then settingsRead rest { s with tableSize := v, hasTableSize := true }
     else if key = Gen.c_EnablePush then
-      if v > 1 then .inr Gen.c_ProtocolError else settingsRead rest { s with enablePush := v != 0 }
-    else if key = Gen.c_MaxConcurrentStreams then settingsRead rest { s with maxStreams := v }
+      if v > 1 then .inr Gen.c_ProtocolError else settingsRead rest { s with enablePush := v != 0, hasPush := true }
+    else if key = Gen.c_MaxConcurrentStreams then settingsRead rest { s with maxStreams := v, hasMaxStreams := true }
     else if key = Gen.c_MaxWindowSize then
       if v > 2 ^ 31 - 1 then .inr Gen.c_FlowControlError
       else settingsRead rest { s with windowSize := v, hasWindowSize := true }
@@ -155,11 +159,18 @@ def readFrame (max : Nat) (b : Bytes) : ReadRes :=
 
 /-! ## writer -/
 
+/-- one (identifier, value) pair of `Settings.Encode`: written when the value is not zero or is marked as present -/
+def settingsPair (id v : Nat) (has : Bool) : Bytes := if v ≠ 0 || has then toBe16 id ++ toBe32 v else []
+
+/-- `Settings.Encode`: a value that was set (or read from a frame) is written even when it is zero; MAX_FRAME_SIZE and
+MAX_HEADER_LIST_SIZE have no mark (0 is not a frame size; 0 is this library's "no limit" for the header list) -/
 def settingsEncode (s : SettingsVal) : Bytes :=
-  let e (id v : Nat) : Bytes := if v ≠ 0 then toBe16 id ++ toBe32 v else []
-  e Gen.c_HeaderTableSize s.tableSize ++ (if s.enablePush then toBe16 Gen.c_EnablePush ++ toBe32 1 else []) ++
-  e Gen.c_MaxConcurrentStreams s.maxStreams ++ e Gen.c_MaxWindowSize s.windowSize ++
-  e Gen.c_MaxFrameSize s.frameSize ++ e Gen.c_MaxHeaderListSize s.headerSize
+  settingsPair Gen.c_HeaderTableSize s.tableSize s.hasTableSize ++
+  (if s.enablePush then toBe16 Gen.c_EnablePush ++ toBe32 1
+   else if s.hasPush then toBe16 Gen.c_EnablePush ++ toBe32 0 else []) ++
+  settingsPair Gen.c_MaxConcurrentStreams s.maxStreams s.hasMaxStreams ++
+  settingsPair Gen.c_MaxWindowSize s.windowSize s.hasWindowSize ++
+  settingsPair Gen.c_MaxFrameSize s.frameSize false ++ settingsPair Gen.c_MaxHeaderListSize s.headerSize false
 
 /-- header octets -/
 def header (len typ flags stream : Nat) : Bytes :=
